@@ -109,9 +109,9 @@ func (o *oracle) acquired(t, key int, v *val, fresh bool, how string) {
 			if wi.holders > 0 {
 				o.fail("two-live-values", fmt.Sprintf("key %d: value %d handed to thread %d while value %d is still held", key, v.id, t, w.id))
 			} else if fresh && wi.destructed == 0 {
+				// not a failure: the property wants the destructor after the last release, not
+				// before the next construction (Witness.next_constructor_may_precede_previous_destructor)
 				o.tags["ctor-before-previous-dtor"] = true
-				o.fail("constructed-before-previous-destructor",
-					fmt.Sprintf("key %d: value %d was created while the destructor of the released value %d had not run yet", key, v.id, w.id))
 			}
 		}
 	}
@@ -175,8 +175,10 @@ func (o *oracle) step(t int, r stepResult, obs []refObs) {
 		}
 	case 'L':
 		o.inflight[key]--
-		o.acquired(t, key, ret.v, false, "LoadOrStore")
 		delete(o.lsWaiting, t)
+		if r.tok != "Lr" { // Lr: the loaded entry's constructor failed, the call starts over
+			o.acquired(t, key, ret.v, false, "LoadOrStore")
+		}
 	case 'D':
 		o.deleteStarted(t, key, r.tok)
 	case 'E', 'X':
@@ -315,22 +317,6 @@ func (o *oracle) finish(end string, c *controller) {
 			}
 		}
 	case "deadlock":
-		ranger, failing := -1, -1
-		for _, t := range c.threads {
-			if t.inOp && t.at == mYield {
-				switch t.atPt {
-				case 6:
-					ranger = t.id
-				case 2:
-					failing = t.id
-				}
-			}
-		}
-		if ranger >= 0 && failing >= 0 {
-			o.fail("deadlock-range-during-failing-constructor",
-				fmt.Sprintf("thread %d is inside Range holding the pool read lock and waits for the entry lock of the placeholder whose constructor failed in thread %d, which waits for the pool write lock to remove it: neither call can ever return", ranger, failing))
-		} else {
-			o.fail("deadlock", "some calls can never return: every unfinished goroutine waits for a lock")
-		}
+		o.fail("deadlock", "some calls can never return: every unfinished goroutine waits for a lock")
 	}
 }
